@@ -72,6 +72,9 @@ type interpreter struct {
 	errorStringT types.Type
 	callDepth    int
 	pendingPanic interface{}
+	hashStreams  map[*value]*[]value
+	hashCalls    []hashCall
+	divHints     map[*Term]divHint
 	model        map[string]uint64
 	modelOK      bool
 	pcSet        map[*Term]bool
@@ -80,6 +83,11 @@ type interpreter struct {
 	hasFixedClock bool
 	elemOwners   map[*value][]value
 	uniques      map[string]*value
+}
+
+type divHint struct {
+	c    uint64
+	q, r *Term
 }
 
 type deferred struct {
